@@ -39,11 +39,15 @@ struct Expect { int i1 = 11, i2 = 22; double d1 = 1.5, d2 = 2.5; std::string s1 
 
 static std::string randcase(vf::Rng& r, std::string s) { for (auto& c : s) if (r.chance(1, 2)) c = (char)(isupper((unsigned char)c) ? tolower(c) : toupper(c)); return s; }
 
+static long long zero_padded = 0;
 // one well-formed assignment; cmdline: the token is a whole argv element
 static std::string assignment(vf::Rng& r, Expect& e, bool cmdline, std::string& kind) {
   int which = (int)r.below(10);
   auto sep = [&]() -> std::string { int k = (int)r.below(cmdline ? 2 : 5); return k == 0 ? "=" : k == 1 ? (cmdline ? "=" : " ") : k == 2 ? " = " : k == 3 ? "= " : " =" ; };
   auto ival = [&]() { int v = r.chance(1, 6) ? (r.chance(1, 2) ? 2147483647 : -2147483647 - 1) : r.range(-100000, 100000); return v; };
+  // integer values are decimal: leading zeros do not change the value ("010" is ten, not eight)
+  auto istr = [&](int v, bool plus) { std::string d = std::to_string(v < 0 ? -(long long)v : (long long)v); std::string z = r.chance(1, 4) ? std::string(r.range(1, 4), '0') : ""; if (z.size()) ++zero_padded;
+    return std::string(v < 0 ? "-" : plus ? "+" : "") + z + d; };
   auto dval = [&]() { double v; do v = vf::hostile_double(r, false); while (!std::isfinite(v)); return v; };
   auto dstr = [&](double v) { char b[64]; snprintf(b, sizeof b, r.chance(1, 4) && v == std::floor(v) && std::fabs(v) < 1e9 ? "%.0f" : "%.17g", v); return std::string(b); };
   auto sval = [&](bool allow_space) {
@@ -52,8 +56,8 @@ static std::string assignment(vf::Rng& r, Expect& e, bool cmdline, std::string& 
     if (allow_space && r.chance(1, 2)) s += " " + std::string(pool[r.below(7)]);
     return s; };
   switch (which) {
-    case 0: { int v = ival(); std::string n = r.chance(1, 3) ? "oolsyn" : "iopt1"; e.i1 = v; kind = "int"; return n + sep() + std::to_string(v); }
-    case 1: { int v = ival(); static const char* ns[] = {"tech:i2", "ialias2", "ia2"}; size_t k = r.below(3); std::string n = k ? randcase(r, ns[k]) : ns[0]; e.i2 = v; kind = k ? "int-synonym" : "int"; return n + sep() + (v >= 0 && r.chance(1, 4) ? "+" : "") + std::to_string(v); }
+    case 0: { int v = ival(); std::string n = r.chance(1, 3) ? "oolsyn" : "iopt1"; e.i1 = v; kind = "int"; return n + sep() + istr(v, false); }
+    case 1: { int v = ival(); static const char* ns[] = {"tech:i2", "ialias2", "ia2"}; size_t k = r.below(3); std::string n = k ? randcase(r, ns[k]) : ns[0]; e.i2 = v; kind = k ? "int-synonym" : "int"; return n + sep() + istr(v, v >= 0 && r.chance(1, 4)); }
     case 2: { double v = dval(); std::string n = r.chance(1, 3) ? "dool" : "dopt1"; e.d1 = v; kind = "double"; return n + sep() + dstr(v); }
     case 3: { double v = dval(); bool syn = r.chance(1, 2); std::string n = syn ? randcase(r, "dalias") : "lim:d2"; e.d2 = v; kind = syn ? "double-synonym" : "double"; return n + sep() + dstr(v); }
     case 4: case 5: {
